@@ -40,6 +40,14 @@ def extent_of(fn, e):
     return None
 
 
+def _numeric(fn):
+    from . import numeric
+    c = fn.__dict__.get('_numeric_an')
+    if c is None:
+        c = fn.__dict__['_numeric_an'] = numeric.Analysis(fn)
+    return c
+
+
 def local_def_expr(fn, name):
     d = fn.single_def(name)
     return d[1] if d else None
@@ -299,6 +307,14 @@ def classify_call(P, fn, s):
     if name in ('strncpy', 'strlcpy') and len(a) == 3:
         ex = extent_of(fn, a[0])
         n = const_of(a[2])
+        if ex is None and isinstance(a[0], dict) and a[0].get('k') == 'bin' and a[0].get('op') == '+' and is_var(a[0]['r']) and extent_of(fn, a[0]['l']) is not None:
+            # array + variable offset: take the offset's largest value from the numeric analysis
+            from . import numeric
+            an = _numeric(fn)
+            lo, hi = an.range_of(a[0]['r'], an.at(s))
+            if lo is not None and lo >= 0 and hi != numeric.INF and hi < extent_of(fn, a[0]['l'])[0]:
+                b0 = extent_of(fn, a[0]['l'])
+                ex = (b0[0], b0[1] + int(hi), b0[2], b0[3])
         if ex is None:
             return None, 'destination %s has no known extent' % sx(a[0])
         if n is None:
